@@ -449,6 +449,36 @@ example : evalFile fns ⟨[], .map [("request", .seq [.map [("uri", .call "upper
 /-- a block does not see its own attributes -/
 example : evalFile fns ⟨[[("a", .str "1"), ("b", .loc "a")]], .map []⟩ = none := by rfl
 
+/-- gohcl converts to the field's type: `port = 8090` and `b = true` in a `variables` map denote the strings "8090" and
+"true"; `local.o.port` / `local.t[1]` pick a member of a local -/
+example : hclDescription current fns
+    ⟨[[("o", .map [("port", .int 8090)]), ("t", .seq [.str "x", .str "localhost"])]],
+     .map [("variable_source", .seq [.map [("name", .str "v"), ("type", .str "variables"),
+       ("variables", .map [("port", .idx (.loc "o") (.str "port")), ("host", .idx (.loc "t") (.int 1)), ("b", .bool true)])]])]⟩ =
+    some (.map [("variable_source", .seq [.map [("name", .str "v"), ("type", .str "variables"),
+       ("variables", .map [("port", .str "8090"), ("host", .str "localhost"), ("b", .str "true")])]])]) := by rfl
+
+/-- a required argument left out (`request "r" {}` without `method`), an argument the struct does not have, a list
+where a string is expected: refused -/
+example : hclDescription current fns ⟨[], .map [("request", .seq [.map [("name", .str "r")]])]⟩ = none := by rfl
+example : hclDescription current fns ⟨[], .map [("scenario", .seq [.map [("name", .str "s"), ("requests", .seq []),
+    ("colour", .str "red")]])]⟩ = none := by rfl
+example : hclDescription current fns ⟨[], .map [("scenario", .seq [.map [("name", .str "s"),
+    ("requests", .str "r")]])]⟩ = none := by rfl
+
+/-- the hypotheses of `C16_unevaluated_local_refuses` are met: the first block evaluates, the second (which the body
+never uses) does not — `element` of an empty list, a missing member, a local of a LATER block -/
+example : evalLocals fns [] [[("ok", .str "1")]] = some [("ok", .str "1")] ∧
+    evalM fns [("ok", .str "1")] [("bad", .call "element" [.seq [], .int 0])] = none ∧
+    evalM fns [("ok", .str "1")] [("bad", .idx (.map [("k", .str "v")]) (.str "nokey"))] = none ∧
+    evalM fns [("ok", .str "1")] [("bad", .loc "later")] = none := ⟨rfl, rfl, rfl, rfl⟩
+
+/-- `coalescelist` skips EMPTY lists where `coalesce` only skips null; `element` wraps around where `index` fails -/
+example : applyFn "CoalesceListFunc" [.seq [], .seq [.str "a"]] = some (.seq [.str "a"]) ∧
+    applyFn "CoalesceFunc" [.seq [], .seq [.str "a"]] = some (.seq []) ∧
+    applyFn "ElementFunc" [.seq [.str "a", .str "b", .str "c"], .int 4] = some (.str "b") ∧
+    applyFn "IndexFunc" [.seq [.str "a", .str "b", .str "c"], .int 4] = none := ⟨rfl, rfl, rfl, rfl⟩
+
 /-- the ammo of the documentation-style file: one scenario, the step twice with 10 ms sleep, 5 ms more on the second
 copy, then once more -/
 example : (evalFile fns docFile).map (fun d => ammoOf (decode current (marshal current (complete current d)))) =
